@@ -342,12 +342,14 @@ func TestC01(t *testing.T) {
 		cfg.CommitWeight = 25
 		cfg.ReopenWeight = 10
 		failg := func(v *drv.Violation) {
+			drv.SetFailing()
 			log := g.Log
 			g.Cleanup()
 			failCase(rt, replayDoc{Property: "C01", Kind: "history", Ops: log}, v)
 		}
 		runHistory(rt, g, cfg, nil, failg)
 		finishHistory(g, failg)
+		drv.SetFailing()
 		log := g.Log
 		g.Cleanup()
 		// 2. record its I/O and enumerate crash points
